@@ -92,6 +92,7 @@ FileVerdict(t) ==
         ELSE IF BadIdent # {} THEN <<"C03_Identity", SetMin(BadIdent)>>
         ELSE IF BadHalf # {} THEN <<"C03_HalfSets", SetMin(BadHalf)>>
         ELSE IF ~L.ok THEN <<"C03_LoadBack", 0>>
+        ELSE IF ~L.valid THEN <<"C03_RoundTrip", 0>>              \* a loaded value is off the lattice / not finite / not a cube rotation
         ELSE IF Len(L.rows) # N THEN <<"C03_RoundTripCount", 0>>
         ELSE IF BadBack # {} THEN <<"C03_RoundTrip", SetMin(BadBack)>>
         ELSE IF ~RC!IdsOK(L.ids, [i \in 1..N |-> E[i].subset]) THEN <<"C03_HalfSets", 0>>
